@@ -79,6 +79,40 @@ var rangeEnds = []uint16{' ', '-', '.', '1', 'A', '_', 'a', 'b', 'c'}
 
 func genClass(t *rapid.T, o GenOpts) *Node {
 	n := &Node{Kind: KClass, Neg: rapid.IntRange(0, 3).Draw(t, "neg") == 3}
+	if rapid.IntRange(0, 9).Draw(t, "delimclass") == 9 {
+		// a class made of the characters that matter to whoever has to find the end of a class or of a
+		// literal: escaped ] and \, bare and escaped /, bare [, in any order (7.8.5 RegularExpressionClass)
+		k := rapid.IntRange(2, 5).Draw(t, "ndelim")
+		for i := 0; i < k; i++ {
+			var it *Node
+			switch rapid.SampledFrom([]string{"a", "\\]", "/", "\\/", "[", "\\\\", "\\-", "^", "\\["}).Draw(t, "delim") {
+			case "a":
+				it = &Node{Kind: KChar, Ch: 'a', Form: "lit"}
+			case "\\]":
+				it = &Node{Kind: KChar, Ch: ']', Form: "id"}
+			case "/":
+				it = &Node{Kind: KChar, Ch: '/', Form: "lit"}
+			case "\\/":
+				it = &Node{Kind: KChar, Ch: '/', Form: "id"}
+			case "[":
+				it = &Node{Kind: KChar, Ch: '[', Form: "lit"}
+			case "\\\\":
+				it = &Node{Kind: KChar, Ch: '\\', Form: "id"}
+			case "\\-":
+				it = &Node{Kind: KChar, Ch: '-', Form: "id"}
+			case "\\[":
+				it = &Node{Kind: KChar, Ch: '[', Form: "id"}
+			default:
+				if len(n.Items) > 0 {
+					it = &Node{Kind: KChar, Ch: '^', Form: "lit"}
+				} else {
+					it = &Node{Kind: KChar, Ch: '^', Form: "id"}
+				}
+			}
+			n.Items = append(n.Items, ClassItem{Lo: it})
+		}
+		return n
+	}
 	if o.EmptyClass && rapid.IntRange(0, 59).Draw(t, "emptyclass") == 59 {
 		return n
 	}
